@@ -239,6 +239,18 @@ fn parse_trace(text: &str, root: &str, cwd_rel: &str) -> (Vec<TraceLine>, bool, 
     (v, ended, fired, unfired)
 }
 
+/// `/tmp/verif-sim-<simulator pid>/<world name>` (removed by `Engine::cleanup`)
+pub fn private_tmpdir(w: &WorldDir) -> PathBuf {
+    let name = w.base.file_name().map(|s| s.to_string_lossy().into_owned()).unwrap_or_else(|| "w".into());
+    let d = tmp_base().join(name);
+    let _ = std::fs::create_dir_all(&d);
+    d
+}
+
+pub fn tmp_base() -> PathBuf {
+    std::env::temp_dir().join(format!("verif-sim-{}", std::process::id()))
+}
+
 pub fn run_node(w: &WorldDir, bins: &Bins, spec: &NodeSpec) -> NodeRun {
     let root = w.root();
     let root_s = root.to_string_lossy().into_owned();
@@ -294,6 +306,10 @@ pub fn run_node(w: &WorldDir, bins: &Bins, spec: &NodeSpec) -> NodeRun {
     cmd.env("LD_PRELOAD", &bins.shim);
     cmd.env("VERIF_SIM_PLAN", &plan);
     cmd.env("RUST_BACKTRACE", "0");
+    // a private temporary directory per world, on another file system than the world itself when
+    // possible (as /tmp usually is in real life): nodes of different workers never meet there
+    let tmpdir = private_tmpdir(w);
+    cmd.env("TMPDIR", &tmpdir);
     for (k, v) in &spec.env {
         cmd.env(k, sub(v));
     }
